@@ -454,7 +454,7 @@ package fs
 //@ func makeIdentifier results(r)
 //@   tags C04,C08
 //@   trusted
-//@   ensures len(r) <= (joliet ? 2 * len(name) : len(name))
+//@   ensures len(r) <= (joliet ? 2 * len(name) : len(name)) && r == identOf(name, joliet)
 
 //@ func VirtualISO.calculateSizes
 //@   tags C04,C08
@@ -475,12 +475,16 @@ package fs
 //@ func VirtualISO.makeVolumeDescriptors
 //@   tags C04,C08
 //@   requires viso != nil && len(viso.rootDir) >= 1 && len(viso.rootDir[0].dirEntry) >= 1 && len(viso.rootDir[0].dirEntryJoliet) >= 1
-//@   requires 0 <= viso.volumeSizeSectors && len(viso.pathTable) <= 65535 && len(viso.pathTableJoliet) <= 65535
+//@   requires 0 <= viso.volumeSizeSectors && len(viso.pathTable) <= 65536 && len(viso.pathTableJoliet) <= 65536
+//@   requires deOKv(viso.rootDir[0].dirEntry[0]) && deSize(len(viso.rootDir[0].dirEntry[0].Identifier), len(viso.rootDir[0].dirEntry[0].SystemUse)) <= 34 && deOKv(viso.rootDir[0].dirEntryJoliet[0]) && deSize(len(viso.rootDir[0].dirEntryJoliet[0].Identifier), len(viso.rootDir[0].dirEntryJoliet[0].SystemUse)) <= 34 @root-records-fit-the-descriptor-field
 //@   modifies viso.volumeDescriptors
 //@   ensures[C08] vdWritten(viso, 0, 1) && vdWritten(viso, 1, 2) && vdWritten(viso, 2, 255) @primary-supplementary-terminator
 //@   ensures[C08] viso.volumeDescriptors[0].Primary != nil && viso.volumeDescriptors[0].Primary.VolumeSpaceSize == viso.volumeSizeSectors && viso.volumeDescriptors[0].Primary.LogicalBlockSize == 2048 @primary-announces-the-volume-size
 //@   ensures[C08] viso.volumeDescriptors[1].Primary != nil && viso.volumeDescriptors[1].Primary.VolumeSpaceSize == viso.volumeSizeSectors && viso.volumeDescriptors[1].Primary.LogicalBlockSize == 2048 @supplementary-announces-the-volume-size
 //@   ensures[C08] viso.volumeDescriptors[0].Primary.TypeLPathTableLoc == 20 && viso.volumeDescriptors[0].Primary.TypeMPathTableLoc == 20 + secs(ptBytes(viso.pathTable.$arr, viso.pathTable.$off, len(viso.pathTable))) @path-table-locations
+//@   ensures[C08] parr(viso.volumeDescriptors[0].Primary.RootDirectoryEntry) == viso.rootDir[0].dirEntry.$arr && pidx(viso.volumeDescriptors[0].Primary.RootDirectoryEntry) == base(viso.rootDir[0].dirEntry) && parr(viso.volumeDescriptors[1].Primary.RootDirectoryEntry) == viso.rootDir[0].dirEntryJoliet.$arr && pidx(viso.volumeDescriptors[1].Primary.RootDirectoryEntry) == base(viso.rootDir[0].dirEntryJoliet) @root-records-are-the-first-records-of-the-root-directory
+//@   ensures[C04] vdOKv(viso.volumeDescriptors[0]) && vdOKv(viso.volumeDescriptors[1]) && vdOKv(viso.volumeDescriptors[2]) @descriptors-encodable
+//@   ensures fresh(viso.volumeDescriptors[0].Primary) && fresh(viso.volumeDescriptors[1].Primary)
 //@   ensures[C04] len(viso.volumeDescriptors[0].Primary.VolumeIdentifier) <= 32 && len(viso.volumeDescriptors[0].Primary.VolumeSetIdentifier) <= 128 && len(viso.volumeDescriptors[1].Primary.VolumeIdentifier) <= 32 && len(viso.volumeDescriptors[1].Primary.VolumeSetIdentifier) <= 128 @identifiers-fit-their-fields
 
 //@ pred deOKv(de directoryEntry) := deSize(len(de.Identifier), len(de.SystemUse)) <= 255 && 0 <= de.ExtentLocation && 0 <= de.ExtentLength && de.ExtentLength <= 0xffffffff
@@ -544,6 +548,188 @@ package fs
 //@   loop 9 invariant vdAt(addr(viso.fsBuf), 34816, viso.volumeDescriptors[1]) @descriptor-1-kept
 //@   loop 9 invariant vdAt(addr(viso.fsBuf), 36864, viso.volumeDescriptors[2]) @descriptor-2-kept
 //@   loop 9 invariant viso.ps3Mode ==> ps3Written(viso) @ps3-sectors-kept
+
+// ---- directory tree items -------------------------------------------------------------------------
+
+// childOf(c, p): directory path p is the parent of path c (filepath.Rel(c, p) == "..")
+//@ spec childOf(c str, p str) bool
+// identOf(name, joliet): the identifier a name is mapped to (deterministic)
+//@ spec identOf(name str, joliet bool) str
+
+//@ func dirItem.isDirectChild results(ok)
+//@   tags C04,C08
+//@   trusted
+//@   ensures ok == childOf(i.path, of.path)
+
+// relocation: every extent location moves by the start of its area; nothing else changes
+//@ func fixDirLBA
+//@   tags C04,C08
+//@   requires 0 <= dirLBA && 0 <= filesLBA
+//@   requires forall z {at(entries, z).ExtentLocation} :: base(entries) <= z && z < end(entries) ==> 0 <= at(entries, z).ExtentLocation && at(entries, z).ExtentLocation + dirLBA <= 0x7fffffff && at(entries, z).ExtentLocation + filesLBA <= 0x7fffffff @relocated-sectors-fit
+//@   modifies elems(entries).ExtentLocation
+//@   ensures[C08] forall z {at(entries, z).ExtentLocation} :: base(entries) <= z && z < end(entries) ==> at(entries, z).ExtentLocation == old(at(entries, z).ExtentLocation) + (at(entries, z).FileFlags & 2 > 0 ? dirLBA : filesLBA) @directories-by-the-directory-area-files-by-the-file-area
+//@   ensures forall z {at(entries, z).ExtentLocation} :: z < base(entries) || z >= end(entries) ==> at(entries, z).ExtentLocation == old(at(entries, z).ExtentLocation)
+//@   loop 1 invariant 0 <= i && i <= len(entries) && (forall z {at(entries, z).ExtentLocation} :: base(entries) <= z && z < base(entries) + i ==> at(entries, z).ExtentLocation == pre(at(entries, z).ExtentLocation) + (at(entries, z).FileFlags & 2 > 0 ? dirLBA : filesLBA)) && (forall z {at(entries, z).ExtentLocation} :: z < base(entries) || z >= base(entries) + i ==> at(entries, z).ExtentLocation == pre(at(entries, z).ExtentLocation))
+
+//@ func pathTable.fixLBA
+//@   tags C04,C08
+//@   requires 0 <= dirLBA
+//@   requires forall z {at(t, z).DirLocation} :: base(t) <= z && z < end(t) ==> 0 <= at(t, z).DirLocation && at(t, z).DirLocation + dirLBA <= 0x7fffffff @relocated-sectors-fit
+//@   modifies elems(t).DirLocation
+//@   ensures[C08] forall z {at(t, z).DirLocation} :: base(t) <= z && z < end(t) ==> at(t, z).DirLocation == old(at(t, z).DirLocation) + dirLBA @moved-by-the-directory-area-start
+//@   ensures forall z {at(t, z).DirLocation} :: z < base(t) || z >= end(t) ==> at(t, z).DirLocation == old(at(t, z).DirLocation)
+//@   loop 1 invariant 0 <= i && i <= len(t) && (forall z {at(t, z).DirLocation} :: base(t) <= z && z < base(t) + i ==> at(t, z).DirLocation == pre(at(t, z).DirLocation) + dirLBA) && (forall z {at(t, z).DirLocation} :: z < base(t) || z >= base(t) + i ==> at(t, z).DirLocation == pre(at(t, z).DirLocation))
+
+//@ func dirItemList.parent results(p)
+//@   tags C04,C08
+//@   ensures p == nil || (parr(p) == l.$arr && base(l) <= pidx(p) && pidx(p) < end(l) && childOf(item.path, at(l, pidx(p)).path)) @points-at-the-parent-item
+//@   ensures[ASSUMED,C04] p != nil ==> (forall y {at(l, y).path} :: base(l) <= y && y < end(l) && at(l, y).path == item.path ==> pidx(p) < y) @a-directory-is-listed-after-its-parent
+//@   loop 1 invariant true
+
+//@ func dirItemList.parentIdx results(k)
+//@   tags C04,C08
+//@   ensures k == 0 - 1 || (0 <= k && k < len(l) && childOf(item.path, l[k].path))
+//@   loop 1 invariant true
+
+//@ func dirItem.findDirEntry results(r)
+//@   tags C04,C08
+//@   requires item != nil
+//@   ensures !joliet ==> r == nil || (parr(r) == i.dirEntry.$arr && base(i.dirEntry) <= pidx(r) && pidx(r) < end(i.dirEntry) && at(i.dirEntry, pidx(r)).Identifier == identOf(item.name, joliet)) @points-at-a-record-with-the-child's-identifier
+//@   ensures joliet ==> r == nil || (parr(r) == i.dirEntryJoliet.$arr && base(i.dirEntryJoliet) <= pidx(r) && pidx(r) < end(i.dirEntryJoliet) && at(i.dirEntryJoliet, pidx(r)).Identifier == identOf(item.name, joliet)) @points-at-a-joliet-record-with-the-child's-identifier
+//@   ensures[ASSUMED,C04] r != nil @the-parent-holds-a-record-for-each-child-directory
+//@   loop 1 invariant true
+
+// dirItemList.size: bytes of all directories of one hierarchy, each rounded up to whole sectors.
+// ASSUMED bounds: the records are held in memory, so their total is far below 2^40 bytes.
+//@ spec dirBytes(arr int, off int, n int, joliet bool) int
+//@ func dirItemList.size
+//@   tags C04,C08
+//@   trusted
+//@   ensures result == dirBytes(l.$arr, l.$off, len(l), joliet) && 0 <= result && result < 1<<40 && result % 2048 == 0
+
+// location bounds before relocation: directory records point below maxDir, file records below maxFile
+//@ pred entriesBounded(s []directoryEntry, maxDir int, maxFile int) := forall z {at(s, z).ExtentLocation} :: base(s) <= z && z < end(s) ==> 0 <= at(s, z).ExtentLocation && at(s, z).ExtentLocation <= maxFile
+
+// files of a directory as scanned: sizes and sector runs inside the 31-bit sector space, short names
+//@ pred filesScanned(f []directoryFile) := (forall z {at(f, z).size} {at(f, z).rLBA} {at(f, z).name} :: base(f) <= z && z < end(f) ==> 0 <= at(f, z).size && at(f, z).size < 1<<41 && 0 <= at(f, z).rLBA && at(f, z).rLBA + secs(at(f, z).size) <= 0x30000001 && len(at(f, z).name) < 65536)
+// every directory listed before index k has its records built (both hierarchies when joliet) and they fit their fields
+//@ pred builtBefore(l dirItemList, k int, joliet bool) := forall y {at(l, y).dirEntry.$len} {at(l, y).dirEntryJoliet.$len} {at(l, y).dirEntry.$arr} {at(l, y).dirEntryJoliet.$arr} :: base(l) <= y && y < k ==> len(at(l, y).dirEntry) >= 2 && entriesOK(at(l, y).dirEntry) && entriesBounded(at(l, y).dirEntry, 0x20000000, 0x30000001) && dotFirst(at(l, y).dirEntry) && (joliet ==> len(at(l, y).dirEntryJoliet) >= 2 && entriesOK(at(l, y).dirEntryJoliet) && entriesBounded(at(l, y).dirEntryJoliet, 0x20000000, 0x30000001) && dotFirst(at(l, y).dirEntryJoliet))
+//@ pred dotFirst(s []directoryEntry) := len(at(s, base(s)).Identifier) == 1 && len(at(s, base(s)).SystemUse) == 0
+//@ pred namesShort(l dirItemList) := forall y {at(l, y).name} :: base(l) <= y && y < end(l) ==> len(at(l, y).name) < 65536
+
+//@ func VirtualISO.makeDirEntries results(err)
+//@   tags C04,C08
+//@   alloc (1<<62) * 4
+//@   requires viso != nil && item != nil && parr(item) == viso.rootDir.$arr && base(viso.rootDir) <= pidx(item) && pidx(item) < end(viso.rootDir) @item-is-an-element-of-rootDir
+//@   requires builtBefore(viso.rootDir, pidx(item), joliet) && filesScanned(item.files) && namesShort(viso.rootDir)
+//@   requires !joliet ==> len(item.dirEntry) == 0
+//@   requires joliet ==> len(item.dirEntryJoliet) == 0 && builtBefore(viso.rootDir, end(viso.rootDir), false)
+//@   modifies allmem(dirItem).dirEntry, allmem(dirItem).dirEntryJoliet, allmem(directoryEntry)
+//@   update recOwner = mapset(recOwner, joliet ? item.dirEntryJoliet.$arr : item.dirEntry.$arr, 2 * pidx(item) + (joliet ? 1 : 0))
+//@   ensures[C08] err == nil ==> builtBefore(viso.rootDir, pidx(item) + 1, joliet) @records-built-so-far-fit-their-fields
+//@   ensures err == nil ==> (forall y {at(viso.rootDir, y).dirEntry.$len} {at(viso.rootDir, y).dirEntryJoliet.$len} :: pidx(item) < y && y < end(viso.rootDir) ==> len(at(viso.rootDir, y).dirEntry) == old(len(at(viso.rootDir, y).dirEntry)) && len(at(viso.rootDir, y).dirEntryJoliet) == old(len(at(viso.rootDir, y).dirEntryJoliet))) @later-directories-untouched
+//@   ensures err == nil && joliet ==> builtBefore(viso.rootDir, end(viso.rootDir), false) @iso-records-still-fit
+//@   ensures err == nil && joliet ==> (forall y {at(viso.rootDir, y).dirEntry.$arr} {at(viso.rootDir, y).dirEntry.$len} :: base(viso.rootDir) <= y && y < end(viso.rootDir) ==> at(viso.rootDir, y).dirEntry == old(at(viso.rootDir, y).dirEntry) && at(viso.rootDir, y).dirEntry.$arr != item.dirEntryJoliet.$arr) @iso-slices-kept-and-not-the-new-array
+//@   ensures err == nil && joliet ==> (forall y {at(viso.rootDir, y).dirEntryJoliet.$arr} {at(viso.rootDir, y).dirEntryJoliet.$len} :: base(viso.rootDir) <= y && y < end(viso.rootDir) && y != pidx(item) ==> at(viso.rootDir, y).dirEntryJoliet == old(at(viso.rootDir, y).dirEntryJoliet) && at(viso.rootDir, y).dirEntryJoliet.$arr != item.dirEntryJoliet.$arr) @other-joliet-slices-kept-and-not-the-new-array
+//@   ensures err == nil && !joliet ==> (forall y {at(viso.rootDir, y).dirEntry.$arr} {at(viso.rootDir, y).dirEntry.$len} :: base(viso.rootDir) <= y && y < end(viso.rootDir) && y != pidx(item) ==> at(viso.rootDir, y).dirEntry == old(at(viso.rootDir, y).dirEntry) && at(viso.rootDir, y).dirEntry.$arr != item.dirEntry.$arr) @other-iso-slices-kept-and-not-the-new-array
+//@   ensures err == nil && !joliet ==> (forall y {at(viso.rootDir, y).dirEntryJoliet.$arr} {at(viso.rootDir, y).dirEntryJoliet.$len} :: base(viso.rootDir) <= y && y < end(viso.rootDir) ==> at(viso.rootDir, y).dirEntryJoliet == old(at(viso.rootDir, y).dirEntryJoliet)) @joliet-slices-kept
+//@   ensures err == nil && joliet ==> item.dirEntry == old(item.dirEntry) && item.dirEntry.$arr != item.dirEntryJoliet.$arr
+//@   ensures err == nil && !joliet ==> item.dirEntryJoliet == old(item.dirEntryJoliet)
+//@   ensures[C08] err == nil && !joliet ==> entriesBounded(item.dirEntry, 0x20000000, 0x30000001) @iso-locations-before-relocation
+//@   ensures[C08] err == nil && joliet ==> entriesBounded(item.dirEntryJoliet, 0x20000000, 0x30000001) @joliet-locations-before-relocation
+//@   loop 1 invariant (!joliet ==> len(item.dirEntry) >= 2 && entriesOK(item.dirEntry) && len(item.dirEntry) <= 2 + 513 * $idx && 0 <= totalSizeBytes && totalSizeBytes <= 255 * len(item.dirEntry) && fresh(item.dirEntry.$arr) && entriesBounded(item.dirEntry, 0x20000000, 0x30000001) && dotFirst(item.dirEntry) && item.dirEntryJoliet == old(item.dirEntryJoliet)) && (joliet ==> len(item.dirEntryJoliet) >= 2 && entriesOK(item.dirEntryJoliet) && len(item.dirEntryJoliet) <= 2 + 513 * $idx && 0 <= totalSizeBytes && totalSizeBytes <= 255 * len(item.dirEntryJoliet) && fresh(item.dirEntryJoliet.$arr) && entriesBounded(item.dirEntryJoliet, 0x20000000, 0x30000001) && dotFirst(item.dirEntryJoliet) && item.dirEntry == pre(item.dirEntry) && item.dirEntry.$arr != item.dirEntryJoliet.$arr && builtBefore(viso.rootDir, end(viso.rootDir), false)) @own-records
+//@   loop 1 invariant (forall y {at(viso.rootDir, y).dirEntry.$len} {at(viso.rootDir, y).dirEntryJoliet.$len} {at(viso.rootDir, y).dirEntry.$arr} {at(viso.rootDir, y).dirEntryJoliet.$arr} :: base(viso.rootDir) <= y && y < end(viso.rootDir) && y != pidx(item) ==> at(viso.rootDir, y).dirEntry == old(at(viso.rootDir, y).dirEntry) && at(viso.rootDir, y).dirEntryJoliet == old(at(viso.rootDir, y).dirEntryJoliet) && at(viso.rootDir, y).dirEntry.$arr != (joliet ? item.dirEntryJoliet.$arr : item.dirEntry.$arr) && at(viso.rootDir, y).dirEntryJoliet.$arr != (joliet ? item.dirEntryJoliet.$arr : item.dirEntry.$arr)) @other-directories-keep-their-slices
+//@   loop 1 invariant builtBefore(viso.rootDir, pidx(item), joliet) @earlier-directories-still-built
+//@   loop 2 invariant (!joliet ==> len(item.dirEntry) >= 2 && entriesOK(item.dirEntry) && len(item.dirEntry) <= pre(len(item.dirEntry)) + i && 0 <= totalSizeBytes && totalSizeBytes <= 255 * len(item.dirEntry) && fresh(item.dirEntry.$arr) && entriesBounded(item.dirEntry, 0x20000000, 0x30000001) && dotFirst(item.dirEntry) && item.dirEntryJoliet == old(item.dirEntryJoliet)) && (joliet ==> len(item.dirEntryJoliet) >= 2 && entriesOK(item.dirEntryJoliet) && len(item.dirEntryJoliet) <= pre(len(item.dirEntryJoliet)) + i && 0 <= totalSizeBytes && totalSizeBytes <= 255 * len(item.dirEntryJoliet) && fresh(item.dirEntryJoliet.$arr) && entriesBounded(item.dirEntryJoliet, 0x20000000, 0x30000001) && dotFirst(item.dirEntryJoliet) && item.dirEntry == pre(item.dirEntry) && item.dirEntry.$arr != item.dirEntryJoliet.$arr && builtBefore(viso.rootDir, end(viso.rootDir), false)) @own-records
+//@   loop 2 invariant (forall y {at(viso.rootDir, y).dirEntry.$len} {at(viso.rootDir, y).dirEntryJoliet.$len} {at(viso.rootDir, y).dirEntry.$arr} {at(viso.rootDir, y).dirEntryJoliet.$arr} :: base(viso.rootDir) <= y && y < end(viso.rootDir) && y != pidx(item) ==> at(viso.rootDir, y).dirEntry == old(at(viso.rootDir, y).dirEntry) && at(viso.rootDir, y).dirEntryJoliet == old(at(viso.rootDir, y).dirEntryJoliet) && at(viso.rootDir, y).dirEntry.$arr != (joliet ? item.dirEntryJoliet.$arr : item.dirEntry.$arr) && at(viso.rootDir, y).dirEntryJoliet.$arr != (joliet ? item.dirEntryJoliet.$arr : item.dirEntry.$arr)) @other-directories-keep-their-slices
+//@   loop 2 invariant builtBefore(viso.rootDir, pidx(item), joliet) @earlier-directories-still-built
+//@   loop 2 invariant 0 <= i && i <= parts && 1 <= parts && parts <= 513 && (parts > 1 ==> (parts - 1) * 4294965248 <= fileItem.size && fileItem.size <= parts * 4294965248) && (parts == 1 ==> fileItem.size <= 4294967295) && (i <= parts - 1 ==> lba == fileItem.rLBA + i * 2097151) @extent-arithmetic
+//@   loop 3 invariant (!joliet ==> len(item.dirEntry) >= 2 && entriesOK(item.dirEntry) && len(item.dirEntry) <= 2 + 513 * len(item.files) + $idx && 0 <= totalSizeBytes && totalSizeBytes <= 255 * len(item.dirEntry) && fresh(item.dirEntry.$arr) && entriesBounded(item.dirEntry, 0x20000000, 0x30000001) && dotFirst(item.dirEntry) && item.dirEntryJoliet == old(item.dirEntryJoliet)) && (joliet ==> len(item.dirEntryJoliet) >= 2 && entriesOK(item.dirEntryJoliet) && len(item.dirEntryJoliet) <= 2 + 513 * len(item.files) + $idx && 0 <= totalSizeBytes && totalSizeBytes <= 255 * len(item.dirEntryJoliet) && fresh(item.dirEntryJoliet.$arr) && entriesBounded(item.dirEntryJoliet, 0x20000000, 0x30000001) && dotFirst(item.dirEntryJoliet) && item.dirEntry == pre(item.dirEntry) && item.dirEntry.$arr != item.dirEntryJoliet.$arr && builtBefore(viso.rootDir, end(viso.rootDir), false)) @own-records
+//@   loop 3 invariant (forall y {at(viso.rootDir, y).dirEntry.$len} {at(viso.rootDir, y).dirEntryJoliet.$len} {at(viso.rootDir, y).dirEntry.$arr} {at(viso.rootDir, y).dirEntryJoliet.$arr} :: base(viso.rootDir) <= y && y < end(viso.rootDir) && y != pidx(item) ==> at(viso.rootDir, y).dirEntry == old(at(viso.rootDir, y).dirEntry) && at(viso.rootDir, y).dirEntryJoliet == old(at(viso.rootDir, y).dirEntryJoliet) && at(viso.rootDir, y).dirEntry.$arr != (joliet ? item.dirEntryJoliet.$arr : item.dirEntry.$arr) && at(viso.rootDir, y).dirEntryJoliet.$arr != (joliet ? item.dirEntryJoliet.$arr : item.dirEntry.$arr)) @other-directories-keep-their-slices
+//@   loop 3 invariant builtBefore(viso.rootDir, pidx(item), joliet) @earlier-directories-still-built
+
+//@ func VirtualISO.makePathTable results(t, err)
+//@   tags C04,C08
+//@   alloc (1<<62) * 4
+//@   wrapok conv:int->int16
+//@   requires viso != nil && builtBefore(viso.rootDir, end(viso.rootDir), joliet) && namesShort(viso.rootDir)
+//@   ensures[C08] err == nil ==> len(t) == min(len(viso.rootDir), 65536) && (len(t) >= 1 ==> fresh(t.$arr)) && (forall y {at(t, y).DirIdentifier} {at(t, y).DirLocation} :: base(t) <= y && y < end(t) ==> len(at(t, y).DirIdentifier) <= 255 && at(t, y).DirLocation >= 0 && at(t, y).DirLocation <= 0x30000001) @identifiers-fit-a-byte-locations-are-sectors
+//@   ensures[C08] err == nil && len(t) >= 1 ==> t[0].ParentDirNumber == 1 @root-is-its-own-parent
+//@   loop 1 invariant 0 <= i && i <= len(viso.rootDir) && i <= 65536 && len(ret) == i && (i > 0 ==> fresh(ret.$arr)) && (forall y {at(ret, y).DirIdentifier} {at(ret, y).DirLocation} :: base(ret) <= y && y < end(ret) ==> len(at(ret, y).DirIdentifier) <= 255 && at(ret, y).DirLocation >= 0 && at(ret, y).DirLocation <= 0x30000001) && (i >= 1 ==> ret[0].ParentDirNumber == 1)
+
+// relocation of the whole tree
+// no two directories share a record array or a file array (each was appended to on its own)
+//@ pred arraysDistinct(l dirItemList) := (forall p, q {at(l, p).dirEntry.$arr, at(l, q).dirEntry.$arr} {at(l, p).dirEntryJoliet.$arr, at(l, q).dirEntryJoliet.$arr} {at(l, p).files.$arr, at(l, q).files.$arr} :: base(l) <= p && p < q && q < end(l) ==> (len(at(l, q).dirEntry) > 0 ==> at(l, p).dirEntry.$arr != at(l, q).dirEntry.$arr) && (len(at(l, q).dirEntryJoliet) > 0 ==> at(l, p).dirEntryJoliet.$arr != at(l, q).dirEntryJoliet.$arr) && (len(at(l, q).files) > 0 && len(at(l, p).files) > 0 ==> at(l, p).files.$arr != at(l, q).files.$arr))
+//@   && (forall p, q {at(l, p).dirEntry.$arr, at(l, q).dirEntryJoliet.$arr} :: base(l) <= p && p < end(l) && base(l) <= q && q < end(l) && len(at(l, q).dirEntryJoliet) > 0 && len(at(l, p).dirEntry) > 0 ==> at(l, p).dirEntry.$arr != at(l, q).dirEntryJoliet.$arr)
+//@ pred relocatable(l dirItemList, from int) := forall y {at(l, y).dirEntry.$arr} {at(l, y).dirEntryJoliet.$arr} {at(l, y).files.$arr} :: from <= y && y < end(l) ==> entriesBounded(at(l, y).dirEntry, 0x20000000, 0x30000001) && entriesBounded(at(l, y).dirEntryJoliet, 0x20000000, 0x30000001) && filesScanned(at(l, y).files)
+
+//@ func dirItemList.fixLBA
+//@   tags C04,C08
+//@   requires 0 <= isoLBA && 0 <= jolietLBA && 0 <= filesLBA && isoLBA <= 0x41000000 && jolietLBA <= 0x41000000 && filesLBA <= 0x41000000
+//@   requires relocatable(l, base(l)) && arraysDistinct(l) @locations-leave-room-for-relocation
+//@   modifies allmem(directoryEntry).ExtentLocation, allmem(directoryFile).rLBA
+//@   ensures old(dirsOK(l)) ==> dirsOK(l) @records-still-fit-their-fields
+//@   ensures[C08] forall y, z {at(at(l, y).dirEntry, z).ExtentLocation} :: base(l) <= y && y < end(l) && base(at(l, y).dirEntry) <= z && z < end(at(l, y).dirEntry) ==> at(at(l, y).dirEntry, z).ExtentLocation == old(at(at(l, y).dirEntry, z).ExtentLocation) + (at(at(l, y).dirEntry, z).FileFlags & 2 > 0 ? isoLBA : filesLBA) @iso-records-relocated
+//@   ensures[C08] forall y, z {at(at(l, y).dirEntryJoliet, z).ExtentLocation} :: base(l) <= y && y < end(l) && base(at(l, y).dirEntryJoliet) <= z && z < end(at(l, y).dirEntryJoliet) ==> at(at(l, y).dirEntryJoliet, z).ExtentLocation == old(at(at(l, y).dirEntryJoliet, z).ExtentLocation) + (at(at(l, y).dirEntryJoliet, z).FileFlags & 2 > 0 ? jolietLBA : filesLBA) @joliet-records-relocated
+//@   ensures[C08] forall y, z {at(at(l, y).files, z).rLBA} :: base(l) <= y && y < end(l) && base(at(l, y).files) <= z && z < end(at(l, y).files) ==> at(at(l, y).files, z).rLBA == old(at(at(l, y).files, z).rLBA) + filesLBA @files-relocated
+//@   loop 1 invariant relocatable(l, base(l) + $idx) @not-yet-relocated-part-as-before
+//@   loop 1 invariant forall y, z {at(at(l, y).dirEntry, z).ExtentLocation} :: base(l) <= y && y < base(l) + $idx && base(at(l, y).dirEntry) <= z && z < end(at(l, y).dirEntry) ==> at(at(l, y).dirEntry, z).ExtentLocation == old(at(at(l, y).dirEntry, z).ExtentLocation) + (at(at(l, y).dirEntry, z).FileFlags & 2 > 0 ? isoLBA : filesLBA) @iso-done
+//@   loop 1 invariant forall y, z {at(at(l, y).dirEntryJoliet, z).ExtentLocation} :: base(l) <= y && y < base(l) + $idx && base(at(l, y).dirEntryJoliet) <= z && z < end(at(l, y).dirEntryJoliet) ==> at(at(l, y).dirEntryJoliet, z).ExtentLocation == old(at(at(l, y).dirEntryJoliet, z).ExtentLocation) + (at(at(l, y).dirEntryJoliet, z).FileFlags & 2 > 0 ? jolietLBA : filesLBA) @joliet-done
+//@   loop 1 invariant forall y, z {at(at(l, y).files, z).rLBA} :: base(l) <= y && y < base(l) + $idx && base(at(l, y).files) <= z && z < end(at(l, y).files) ==> at(at(l, y).files, z).rLBA == old(at(at(l, y).files, z).rLBA) + filesLBA @files-done
+//@   loop 1 invariant forall y, z {at(at(l, y).dirEntry, z).ExtentLocation} :: base(l) + $idx <= y && y < end(l) && base(at(l, y).dirEntry) <= z && z < end(at(l, y).dirEntry) ==> at(at(l, y).dirEntry, z).ExtentLocation == old(at(at(l, y).dirEntry, z).ExtentLocation) @iso-rest-untouched
+//@   loop 1 invariant forall y, z {at(at(l, y).dirEntryJoliet, z).ExtentLocation} :: base(l) + $idx <= y && y < end(l) && base(at(l, y).dirEntryJoliet) <= z && z < end(at(l, y).dirEntryJoliet) ==> at(at(l, y).dirEntryJoliet, z).ExtentLocation == old(at(at(l, y).dirEntryJoliet, z).ExtentLocation) @joliet-rest-untouched
+//@   loop 1 invariant forall y, z {at(at(l, y).files, z).rLBA} :: base(l) + $idx <= y && y < end(l) && base(at(l, y).files) <= z && z < end(at(l, y).files) ==> at(at(l, y).files, z).rLBA == old(at(at(l, y).files, z).rLBA) @files-rest-untouched
+//@   loop 2 invariant relocatable(l, base(l) + i + 1) @not-yet-relocated-part-as-before
+//@   loop 2 invariant forall y, z {at(at(l, y).dirEntry, z).ExtentLocation} :: base(l) <= y && y < base(l) + i + 1 && base(at(l, y).dirEntry) <= z && z < end(at(l, y).dirEntry) ==> at(at(l, y).dirEntry, z).ExtentLocation == old(at(at(l, y).dirEntry, z).ExtentLocation) + (at(at(l, y).dirEntry, z).FileFlags & 2 > 0 ? isoLBA : filesLBA) @iso-done
+//@   loop 2 invariant forall y, z {at(at(l, y).dirEntryJoliet, z).ExtentLocation} :: base(l) <= y && y < base(l) + i + 1 && base(at(l, y).dirEntryJoliet) <= z && z < end(at(l, y).dirEntryJoliet) ==> at(at(l, y).dirEntryJoliet, z).ExtentLocation == old(at(at(l, y).dirEntryJoliet, z).ExtentLocation) + (at(at(l, y).dirEntryJoliet, z).FileFlags & 2 > 0 ? jolietLBA : filesLBA) @joliet-done
+//@   loop 2 invariant forall y, z {at(at(l, y).files, z).rLBA} :: base(l) <= y && y < base(l) + i && base(at(l, y).files) <= z && z < end(at(l, y).files) ==> at(at(l, y).files, z).rLBA == old(at(at(l, y).files, z).rLBA) + filesLBA @files-done
+//@   loop 2 invariant forall y, z {at(at(l, y).dirEntry, z).ExtentLocation} :: base(l) + i + 1 <= y && y < end(l) && base(at(l, y).dirEntry) <= z && z < end(at(l, y).dirEntry) ==> at(at(l, y).dirEntry, z).ExtentLocation == old(at(at(l, y).dirEntry, z).ExtentLocation) @iso-rest-untouched
+//@   loop 2 invariant forall y, z {at(at(l, y).dirEntryJoliet, z).ExtentLocation} :: base(l) + i + 1 <= y && y < end(l) && base(at(l, y).dirEntryJoliet) <= z && z < end(at(l, y).dirEntryJoliet) ==> at(at(l, y).dirEntryJoliet, z).ExtentLocation == old(at(at(l, y).dirEntryJoliet, z).ExtentLocation) @joliet-rest-untouched
+//@   loop 2 invariant forall y, z {at(at(l, y).files, z).rLBA} :: base(l) + i + 1 <= y && y < end(l) && base(at(l, y).files) <= z && z < end(at(l, y).files) ==> at(at(l, y).files, z).rLBA == old(at(at(l, y).files, z).rLBA) @files-rest-untouched
+//@   loop 2 invariant 0 <= i && i < len(l) && (forall y, z {at(at(l, y).files, z).rLBA} :: y == base(l) + i && base(at(l, y).files) <= z && z < base(at(l, y).files) + $idx ==> at(at(l, y).files, z).rLBA == old(at(at(l, y).files, z).rLBA) + filesLBA) && (forall y, z {at(at(l, y).files, z).rLBA} :: y == base(l) + i && base(at(l, y).files) + $idx <= z && z < end(at(l, y).files) ==> at(at(l, y).files, z).rLBA == old(at(at(l, y).files, z).rLBA) && 0 <= at(at(l, y).files, z).rLBA && at(at(l, y).files, z).rLBA <= 0x30000001) @files-of-this-directory
+
+// the tree as scanned: records not built yet, files bounded, names short, arrays pairwise distinct
+//@ pred scanned(l dirItemList) := (forall y {at(l, y).dirEntry.$len} {at(l, y).dirEntryJoliet.$len} {at(l, y).files.$arr} {at(l, y).name} :: base(l) <= y && y < end(l) ==> len(at(l, y).dirEntry) == 0 && len(at(l, y).dirEntryJoliet) == 0 && filesScanned(at(l, y).files) && len(at(l, y).name) < 65536)
+//@   && (forall p, q {at(l, p).files.$arr, at(l, q).files.$arr} :: base(l) <= p && p < q && q < end(l) && len(at(l, q).files) > 0 && len(at(l, p).files) > 0 ==> at(l, p).files.$arr != at(l, q).files.$arr)
+
+//@ func VirtualISO.scanDirectory results(err)
+//@   tags C04,C08,C13
+//@   alloc (1<<62) * 4
+//@   requires viso != nil && viso.fs != nil && len(viso.rootDir) == 0 && viso.filesSizeSectors == 0 && confined(viso.root)
+//@   modifies viso.rootDir, viso.filesSizeSectors, fopen, fpos, iofaults
+//@   ensures iofaults >= old(iofaults) && fsw == old(fsw)
+//@   ensures[C13] forall g {fopen[g]} :: fopen[g] ==> old(fopen[g]) @directories-closed-again
+//@   ensures err == nil ==> len(viso.rootDir) >= 1 && 0 <= viso.filesSizeSectors && viso.filesSizeSectors <= 0x30000001 && scanned(viso.rootDir)
+//@   loop 1 invariant iofaults >= old(iofaults) && fsw == old(fsw) && 0 <= viso.filesSizeSectors && 2048 * viso.filesSizeSectors <= 1649267441664 + 2047 && scanned(viso.rootDir) && (forall y {at(queue, y)} :: base(queue) <= y && y < end(queue) ==> confined(at(queue, y))) && confined(path) && dir != nil && (forall g {fopen[g]} :: fopen[g] ==> old(fopen[g]) || g == dir) && viso.rootDir == pre(viso.rootDir) && viso.filesSizeSectors >= pre(viso.filesSizeSectors) @scan-state
+//@   loop 1 invariant (forall z {at(dirItem.files, z).size} {at(dirItem.files, z).rLBA} {at(dirItem.files, z).name} :: base(dirItem.files) <= z && z < end(dirItem.files) ==> 0 <= at(dirItem.files, z).size && at(dirItem.files, z).size < 1<<41 && 0 <= at(dirItem.files, z).rLBA && at(dirItem.files, z).rLBA + secs(at(dirItem.files, z).size) <= viso.filesSizeSectors && len(at(dirItem.files, z).name) < 65536) && len(dirItem.dirEntry) == 0 && len(dirItem.dirEntryJoliet) == 0 && len(dirItem.name) < 65536 && (len(dirItem.files) > 0 ==> (forall y {at(viso.rootDir, y).files.$arr} :: base(viso.rootDir) <= y && y < end(viso.rootDir) ==> at(viso.rootDir, y).files.$arr != dirItem.files.$arr)) @files-of-this-directory
+//@   loop 2 invariant iofaults >= old(iofaults) && fsw == old(fsw) && 0 <= viso.filesSizeSectors && 2048 * viso.filesSizeSectors <= 1649267441664 + 2047 && scanned(viso.rootDir) && (forall y {at(queue, y)} :: base(queue) <= y && y < end(queue) ==> confined(at(queue, y))) && (forall g {fopen[g]} :: fopen[g] ==> old(fopen[g])) && (len(queue) == 0 ==> len(viso.rootDir) >= 1) @scan-state
+//@   loop 1 invariant forall y, z {at(at(viso.rootDir, y).files, z).rLBA} :: base(viso.rootDir) <= y && y < end(viso.rootDir) && base(at(viso.rootDir, y).files) <= z && z < end(at(viso.rootDir, y).files) ==> at(at(viso.rootDir, y).files, z).rLBA + secs(at(at(viso.rootDir, y).files, z).size) <= viso.filesSizeSectors @files-end-before-the-running-total
+//@   loop 2 invariant forall y, z {at(at(viso.rootDir, y).files, z).rLBA} :: base(viso.rootDir) <= y && y < end(viso.rootDir) && base(at(viso.rootDir, y).files) <= z && z < end(at(viso.rootDir, y).files) ==> at(at(viso.rootDir, y).files, z).rLBA + secs(at(at(viso.rootDir, y).files, z).size) <= viso.filesSizeSectors @files-end-before-the-running-total
+
+// the order of the list of files handed to read(): ASSUMED (slices.SortFunc over a copy of every
+// directory's files; the comparison is by first sector)
+//@ func dirItemList.collectFiles results(r)
+//@   tags C04,C08
+//@   trusted
+//@   ensures fresh(r.$arr) || len(r) == 0
+
+//@ func VirtualISO.buildFSStructures results(err)
+//@   tags C04,C08,C13
+//@   alloc (1<<62) * 4
+//@   requires viso != nil && viso.fs != nil && len(viso.rootDir) == 0 && viso.filesSizeSectors == 0 && confined(viso.root)
+//@   modifies viso.rootDir, viso.filesSizeSectors, viso.pathTable, viso.pathTableJoliet, viso.volumeDescriptors, viso.volumeSizeSectors, viso.totalSize, viso.padAreaStart, viso.padAreaSize, viso.files, allmem(dirItem).dirEntry, allmem(dirItem).dirEntryJoliet, allmem(directoryEntry), allmem(directoryFile).rLBA, allmem(pathTableEntry).DirLocation, fopen, fpos, iofaults, recOwner
+//@   ensures iofaults >= old(iofaults) && fsw == old(fsw)
+//@   ensures[C13] forall g {fopen[g]} :: fopen[g] ==> old(fopen[g]) @directories-closed-again
+//@   ensures[C04] err == nil ==> vdOKv(viso.volumeDescriptors[0]) && vdOKv(viso.volumeDescriptors[1]) && vdOKv(viso.volumeDescriptors[2]) && ptOK(viso.pathTable) && ptOK(viso.pathTableJoliet) && dirsOK(viso.rootDir) && len(viso.pathTable) >= 1 && 1 <= viso.volumeSizeSectors @everything-writeFSStructures-needs
+//@   ensures[C08] err == nil ==> viso.totalSize == 2048 * viso.volumeSizeSectors && viso.volumeSizeSectors % 32 == 0 && viso.totalSize == viso.padAreaStart + viso.padAreaSize && viso.padAreaSize >= 65536 @sizes-agree
+//@   ensures[C08] err == nil ==> viso.volumeDescriptors[0].Primary.VolumeSpaceSize == viso.volumeSizeSectors && viso.volumeDescriptors[1].Primary.VolumeSpaceSize == viso.volumeSizeSectors @descriptors-announce-the-volume-size
+//@   loop 1 invariant 0 <= i && i <= len(viso.rootDir) && viso.rootDir == pre(viso.rootDir) && builtBefore(viso.rootDir, base(viso.rootDir) + i, false) && namesShort(viso.rootDir) && iofaults >= old(iofaults) @iso-pass
+//@   loop 1 invariant forall y {at(viso.rootDir, y).dirEntry.$len} {at(viso.rootDir, y).dirEntryJoliet.$len} {at(viso.rootDir, y).files.$arr} :: base(viso.rootDir) <= y && y < end(viso.rootDir) ==> filesScanned(at(viso.rootDir, y).files) && len(at(viso.rootDir, y).dirEntryJoliet) == 0 && (y >= base(viso.rootDir) + i ==> len(at(viso.rootDir, y).dirEntry) == 0) @rest-as-scanned
+//@   loop 1 invariant forall y {at(viso.rootDir, y).dirEntry.$arr} :: base(viso.rootDir) <= y && y < base(viso.rootDir) + i ==> recOwner[at(viso.rootDir, y).dirEntry.$arr] == 2 * y @record-arrays-owned
+//@   loop 2 invariant 0 <= i && i <= len(viso.rootDir) && viso.rootDir == pre(viso.rootDir) && builtBefore(viso.rootDir, end(viso.rootDir), false) && builtBefore(viso.rootDir, base(viso.rootDir) + i, true) && namesShort(viso.rootDir) && iofaults >= old(iofaults) @joliet-pass
+//@   loop 2 invariant forall y {at(viso.rootDir, y).dirEntryJoliet.$len} {at(viso.rootDir, y).files.$arr} :: base(viso.rootDir) <= y && y < end(viso.rootDir) ==> filesScanned(at(viso.rootDir, y).files) && (y >= base(viso.rootDir) + i ==> len(at(viso.rootDir, y).dirEntryJoliet) == 0) @rest-as-scanned
+//@   loop 2 invariant forall y {at(viso.rootDir, y).dirEntry.$arr} :: base(viso.rootDir) <= y && y < end(viso.rootDir) ==> recOwner[at(viso.rootDir, y).dirEntry.$arr] == 2 * y @iso-record-arrays-owned
+//@   loop 2 invariant forall y {at(viso.rootDir, y).dirEntryJoliet.$arr} :: base(viso.rootDir) <= y && y < base(viso.rootDir) + i ==> recOwner[at(viso.rootDir, y).dirEntryJoliet.$arr] == 2 * y + 1 @joliet-record-arrays-owned
 
 // ---- generated image: data-structure invariant and abstract view (C09, C07, C04) ----------------
 //
@@ -789,6 +975,7 @@ package fs
 // ---- image-kind detection and key discovery (C11), confinement (C01), handles (C13) -----------------
 
 //@ spec hexkey(c []int) []int         -- the 16 key bytes denoted by hex text c (encoding/hex is trusted)
+//@ ghost recOwner map[int]int          -- directory-record array -> 2*index (+1 for Joliet) of the directory item that owns it
 //@ ghost viewkeyarr map[int][]int     -- for a decrypting view: backing array and offset of the disc key it was built with
 //@ ghost viewkeyoff map[int]int
 //@ ghost viewfile map[int]int         -- for a wrapping view: the file underneath
